@@ -37,14 +37,15 @@ MethodsSim == { Mth(f, v, r, h, d, sec) : f \in {"", "f1", "f2"}, v \in {"GET", 
                                           r \in {"/", "/x", "x", "//x", "/x/", "/{id}", "/{id}/y", "/x/{id}", "/y"}, h \in BOOLEAN, d \in BOOLEAN, sec \in SecShapes }
 \* ---- C06: parameter lists, pointer-ness, locations, aliases, validators, return shapes, error responses --------------------
 NoTypes == {<<>>}
-Fld(n, t, js, v) == [name |-> n, type |-> t, json |-> js, valid |-> v, desc |-> "", embed |-> FALSE]
+Fld(n, t, js, v) == [name |-> n, type |-> t, json |-> js, valid |-> v, desc |-> "", embed |-> FALSE, deprecated |-> FALSE]
+FldD(n, t, js, v) == [Fld(n, t, js, v) EXCEPT !.deprecated = TRUE]      \* a field carrying its own "// @Deprecated" annotation
 Con(n, v) == [name |-> n, value |-> v]
 TItem  == [pkg |-> "p1", file |-> "types", name |-> "Item", kind |-> "struct", base |-> "", fields |-> <<Fld("Name", "string", "name", "required"), Fld("Count", "*int", "count", "")>>,
-           consts |-> <<>>, desc |-> "An item", raw |-> "", errorT |-> FALSE]
+           consts |-> <<>>, desc |-> "An item", raw |-> "", errorT |-> FALSE, deprecated |-> FALSE]
 TMyErr == [pkg |-> "p1", file |-> "types", name |-> "MyErr", kind |-> "struct", base |-> "", fields |-> <<Fld("Code", "int", "code", "")>>,
-           consts |-> <<>>, desc |-> "", raw |-> "", errorT |-> TRUE]
+           consts |-> <<>>, desc |-> "", raw |-> "", errorT |-> TRUE, deprecated |-> FALSE]
 TColor == [pkg |-> "p1", file |-> "types", name |-> "Color", kind |-> "enum", base |-> "string", fields |-> <<>>,
-           consts |-> <<Con("Red", "\"red\""), Con("Blue", "\"blue\"")>>, desc |-> "", raw |-> "", errorT |-> FALSE]
+           consts |-> <<Con("Red", "\"red\""), Con("Blue", "\"blue\"")>>, desc |-> "", raw |-> "", errorT |-> FALSE, deprecated |-> FALSE]
 StdTypes == {<<TItem, TMyErr, TColor>>}
 
 Prm(n, t, k, al, v) == [name |-> n, type |-> t, kind |-> k, alias |-> al, validate |-> v]
@@ -86,10 +87,22 @@ CtrlsC06 == { Ctl("p1", "f1", "AController", "/a", "A", <<>>) }
 MethodsC06 == { MthP(verb, ps, ret, errs, resp) : verb \in {"POST"}, ps \in ParamLists, ret \in RetShapes,
                                                     errs \in {<<>>, <<E(500)>>, <<E(400), E(500)>>}, resp \in {0, 201} }
 
+\* ---- C05 / C06: identifier lists - func (a, b, c string, d int) - must not disturb the signature order ---------------------------
+PG(n, t, k) == Prm(n, t, k, "", "")
+GroupedLists ==
+       { <<PG("a", "string", k1), PG("b", "string", k2), PG("c", "string", k3), PG("d", t4, k4)>> :
+              k1 \in {"Query", "Header", "Path"}, k2 \in {"Query", "Header", "Path"}, k3 \in {"Query", "Header", "Path"}, t4 \in {"string", "int"}, k4 \in {"Query", "Header"} }
+  \cup { <<Prm("ctx", "context.Context", "Context", "", ""), PG("a", "int", k1), PG("b", "int", "Query"), PG("c", "int", "Header"), PG("d", "string", k4), PG("e", "string", "Query")>> :
+              k1 \in {"Query", "Path"}, k4 \in {"Query", "Header", "Path"} }
+  \cup { <<PG("a", "string", "Path"), PG("b", "string", "Query"), PG("c", "*int", "Query"), PG("d", "*int", "Header"), PG("f", "*int", "Query"), PG("g", "string", k)>> : k \in {"Query", "Header"} }
+  \cup { <<PG("a", "string", "FormField"), PG("b", "string", "FormField"), PG("c", "string", "Query"), PG("d", "int", "FormField")>> }
+MethodsGrouped == { MthP("POST", ps, ret, <<>>, 0) @@ [grouped |-> TRUE] : ps \in GroupedLists, ret \in {<<"error">>} }
+
 \* ---- C07 / C11: type graphs --------------------------------------------------------------------------------------------
-FldE(t) == [name |-> "", type |-> t, json |-> "", valid |-> "", desc |-> "", embed |-> TRUE]
+FldE(t) == [name |-> "", type |-> t, json |-> "", valid |-> "", desc |-> "", embed |-> TRUE, deprecated |-> FALSE]
 Ty(pkg, name, kind, base, fields, consts) == [pkg |-> pkg, file |-> "types", name |-> name, kind |-> kind, base |-> base, fields |-> fields, consts |-> consts,
-                                              desc |-> "", raw |-> "", errorT |-> FALSE]
+                                              desc |-> "", raw |-> "", errorT |-> FALSE, deprecated |-> FALSE]
+TyD(pkg, name, kind, base, fields, consts) == [Ty(pkg, name, kind, base, fields, consts) EXCEPT !.deprecated = TRUE]   \* "// @Deprecated" on the declaration
 \* a struct exercising every field form: renamed, omitempty, unexported, json "-", no tag, pointer, slices, map, time, bytes,
 \* enum field with a usage-site validator, self reference, cross-package reference, nested slice of pointers
 TOrder == Ty("p1", "Order", "struct", "", <<Fld("ID", "string", "id", "required,uuid"), Fld("Qty", "int", "qty,omitempty", "gte=1,lte=100"), Fld("Note", "*string", "", ""),
@@ -110,12 +123,26 @@ TUnused == Ty("p1", "Unused", "struct", "", <<Fld("X", "int", "x", "")>>, <<>>)
 TFlag  == Ty("p1", "Flag", "enum", "string", <<>>, <<Con("On", "\"on\""), Con("Off", "\"off\"")>>)
 \* the same enum used with a usage-site oneof: must not change the shared component
 TUser  == Ty("p1", "User", "struct", "", <<Fld("Name", "string", "name", "required"), Fld("Flag", "p1.Flag", "flag", "required,oneof=on")>>, <<>>)
+\* deprecation: a field's own @Deprecated (usage site) must not leak into the component of the field's type; a declaration's @Deprecated
+\* is part of that type's component wherever it is used
+TPrio   == Ty("p1", "Priority", "enum", "string", <<>>, <<Con("PLow", "\"low\""), Con("PHigh", "\"high\"")>>)
+TAddr   == Ty("p1", "Address", "struct", "", <<Fld("Street", "string", "street", "required"), FldD("Zip", "string", "zip", "")>>, <<>>)
+TLegacy == TyD("p1", "Legacy", "struct", "", <<Fld("Old", "string", "old", "")>>, <<>>)
+TOldEn  == TyD("p1", "OldKind", "enum", "string", <<>>, <<Con("KA", "\"a\""), Con("KB", "\"b\"")>>)
+TTicket == Ty("p1", "Ticket", "struct", "", <<Fld("ID", "string", "id", "required"), FldD("Prio", "p1.Priority", "prio", ""), FldD("Addr", "p1.Address", "addr", ""),
+                                               FldD("Note", "string", "note", ""), Fld("Leg", "p1.Legacy", "leg", ""), Fld("Kind", "p1.OldKind", "kind", ""),
+                                               FldD("Addrs", "[]p1.Address", "addrs", ""), FldD("ByName", "map[string]p1.Address", "byName", "")>>, <<>>)
+TTicketPlain == Ty("p1", "Ticket", "struct", "", <<Fld("ID", "string", "id", "required"), Fld("Prio", "p1.Priority", "prio", ""), Fld("Addr", "p1.Address", "addr", ""),
+                                               Fld("Note", "string", "note", ""), Fld("Leg", "p1.Legacy", "leg", ""), Fld("Kind", "p1.OldKind", "kind", ""),
+                                               Fld("Addrs", "[]p1.Address", "addrs", ""), Fld("ByName", "map[string]p1.Address", "byName", "")>>, <<>>)
+TBacklog == Ty("p1", "Backlog", "struct", "", <<Fld("Top", "p1.Priority", "top", ""), Fld("Where", "p1.Address", "where", "")>>, <<>>)
 TypeZoo == { <<TItem, TMyErr, TColor, TOrder, TLine, TLevel, TCode, TUnused>>, <<TItem, TMyErr, TColor, TBase, TDeriv, TUnused>>,
              <<TItem, TMyErr, TColor, TBase, TAudit, TStamp, TDoc>>,
+             <<TItem, TMyErr, TColor, TPrio, TAddr, TLegacy, TOldEn, TTicket, TBacklog>>, <<TItem, TMyErr, TColor, TPrio, TAddr, TLegacy, TOldEn, TTicketPlain, TBacklog>>,
              <<TItem, TMyErr, TColor, TFlag, TUser>>, <<TItem, TMyErr, TColor, TFlag, TUser, TOrder, TLine, TLevel, TCode, TBase, TDeriv>> }
-ParamsC07 == { Prm("e", t, "Body", "", "") : t \in {"p1.Order", "*p1.Order", "[]p1.Order", "p1.Derived", "p1.User", "p1.Item", "map[string]p1.Item", "p1.Doc"} }
+ParamsC07 == { Prm("e", t, "Body", "", "") : t \in {"p1.Order", "*p1.Order", "[]p1.Order", "p1.Derived", "p1.User", "p1.Item", "map[string]p1.Item", "p1.Doc", "p1.Ticket", "p1.Backlog"} }
              \cup { Prm("b", t, "Query", "", "") : t \in {"p1.Flag", "p2.Level", "p2.Code", "string"} }
-RetsC07 == { <<"error">>, <<"p1.Doc", "error">>, <<"p1.Order", "error">>, <<"[]p1.Derived", "error">>, <<"p1.User", "error">>, <<"p2.Line", "error">>, <<"*p1.Item", "error">>, <<"p1.Flag", "error">>,
+RetsC07 == { <<"error">>, <<"p1.Doc", "error">>, <<"p1.Ticket", "error">>, <<"[]p1.Backlog", "error">>, <<"p1.Legacy", "error">>, <<"p1.Order", "error">>, <<"[]p1.Derived", "error">>, <<"p1.User", "error">>, <<"p2.Line", "error">>, <<"*p1.Item", "error">>, <<"p1.Flag", "error">>,
              <<"map[string]p2.Line", "error">>, <<"p1.Item", "p1.MyErr">> }
 CfgsC07 == CfgsC06
 MethodsC07 == { MthP("POST", ps, ret, errs, 0) : ps \in {<<>>} \cup {<<a>> : a \in ParamsC07}, ret \in RetsC07, errs \in {<<>>, <<E(500)>>} }
@@ -138,7 +165,7 @@ HostileTags == { "min=abc", "max=", "len=x", "len=", "minItems=q", "maxItems=-1"
                  "unknownrule=3", "pattern=[", "min=1,max=0,len=5,email,uuid,ip,hostname,datetime,gt=1,lt=2,oneof=a b c,enum=a|b" }
 THostile(tag, ft) == Ty("p1", "Hostile", "struct", "", <<Fld("V", ft, "v", tag)>>, <<>>)
 HostileTypeSets == { <<TItem, TMyErr, TColor, THostile(tag, ft)>> : tag \in HostileTags, ft \in {"string", "int", "[]string", "p1.Color", "*p1.Item"} }
-RawT(name, text) == [pkg |-> "p1", file |-> "types", name |-> name, kind |-> "raw", base |-> "", fields |-> <<>>, consts |-> <<>>, desc |-> "", raw |-> text, errorT |-> FALSE]
+RawT(name, text) == [pkg |-> "p1", file |-> "types", name |-> name, kind |-> "raw", base |-> "", fields |-> <<>>, consts |-> <<>>, desc |-> "", raw |-> text, errorT |-> FALSE, deprecated |-> FALSE]
 UnsupportedTypeSets == {
    <<TItem, TMyErr, TColor, RawT("Hostile", "type Hostile struct {\n\tV struct{ A int } `json:\"v\"`\n}")>>,
    <<TItem, TMyErr, TColor, RawT("Hostile", "type Hostile struct {\n\tV func(int) string `json:\"v\"`\n}")>>,
